@@ -17,3 +17,13 @@ Definition sm2_wrap (fuel : nat) (mode : Z) (d : Z) (key rho : list N) : outcome
 (* sm2.Decrypt(priv, encryptedKey, mode) *)
 Definition sm2_unwrap (mode : Z) (d : Z) (encryptedKey : list N) : outcome (list N) :=
   Decrypt (key_of d) encryptedKey mode.
+
+(* ---- SM2 as the signature scheme of AddSigner / Verify ------------------------------------------------------
+   signAttributes for an sm2.PrivateKey: priv.Sign(rand.Reader, attrBytes, nil): the DER signature; the private
+   key is the scalar d.  cert.CheckSignature(SM2WithSM3, signed, sig): pub.Verify(signed, sig) for the certificate's
+   public key [d]G (cert_d: the scalar it belongs to). *)
+Definition sm2_p7_sign (fuel : nat) (d : Z) (attrBytes rho : list N) : outcome (list N) :=
+  omap fst (Sign fuel (key_of d) rho attrBytes).
+
+Definition sm2_p7_check {Cert : Type} (cert_d : Cert -> Z) (c : Cert) (algo : String.string) (signed sig : list N) : bool :=
+  PublicKey_Verify (ScalarBaseMult (cert_d c)) signed sig.
